@@ -794,15 +794,29 @@ Lemma encode_cr_witness :
   lex_qstring 4 ([34] ++ ypr_encode [97; 13; 10; 98] ++ [34; 59]) = Ok ([97; 92; 110; 98], [59]).
 Proof. vm_compute. reflexivity. Qed.
 
-(* is_yangutf8char() rejects plane 4 although RFC 7950 allows it *)
+(* regression of the former defect (fixed by /repo commit f25b870): plane 4 is accepted *)
 Lemma plane4_witness :
-  is_yang_char 262144 = true /\ getutf8_accepts_char 262144 = true /\ is_yangutf8char 262144 = false /\
-  ylexable (utf8_encode 262144) = false.
+  is_yang_char 262144 = true /\ is_yangutf8char 262144 = true /\ is_yangutf8char 327677 = true /\
+  ylexable (utf8_encode 262144) = true /\ ylexable (utf8_encode 324989) = true /\ is_yangutf8char 327678 = false.
 Proof. vm_compute. repeat split. Qed.
-(* apart from plane 4 the coded rule is the RFC rule *)
+(* the coded rule is the RFC rule *)
 Lemma yangutf8char_spec :
-  N_all_below 1114112 (fun c => Bool.eqb (is_yangutf8char c) (is_yang_char c && negb (in_rng 262144 327679 c))) = true.
+  N_all_below 1114112 (fun c => Bool.eqb (is_yangutf8char c) (is_yang_char c)) = true.
 Proof. vm_cast_no_check (eq_refl true). Qed.
+
+(* hence the characters the lexer accepts (ly_getutf8 then is_yangutf8char) are exactly the yang-char *)
+Lemma lexer_accepts_yang_char cp : is_yang_char cp = true -> lexer_accepts_char cp = true.
+Proof.
+  intro H. unfold lexer_accepts_char, getutf8_accepts_char. rewrite H. cbn [andb].
+  assert (Hlt : cp < 1114112) by (unfold is_yang_char, is_scalar in H; lia).
+  pose proof (N_all_below_spec _ _ yangutf8char_spec cp Hlt) as E. apply Bool.eqb_prop in E. rewrite E. exact H.
+Qed.
+
+Lemma forallb_lexer_accepts cps : forallb is_yang_char cps = true -> forallb lexer_accepts_char cps = true.
+Proof.
+  induction cps as [|c cps IH]; cbn [forallb]; [reflexivity|]. intro H. apply andb_true_iff in H. destruct H as [H1 H2].
+  rewrite (lexer_accepts_yang_char c H1), (IH H2). reflexivity.
+Qed.
 
 (* non-vacuity: a text with both quote kinds, a backslash, tabs, empty lines, blanks at the start of a
    line, before a newline and at the end of the last line, 2-, 3- and 4-byte characters *)
